@@ -52,7 +52,7 @@ Fixpoint aremove (k : N) (m : amap) : amap :=
 Fixpoint aupdate (k : N) (v : list N) (m : amap) : amap :=
   match m with
   | [] => []
-  | (k', v') :: r => if k' =? k then (k', v) :: aupdate k v r else (k', v') :: aupdate k v r
+  | (k', v') :: r => if k' =? k then (k', v) :: r else (k', v') :: aupdate k v r
   end.
 
 (* key lists (used for the backend's live set reconstructed from its call log) *)
